@@ -263,6 +263,10 @@ func main() {
 		}
 		jobs = append(jobs, job{kind: "ext", src: src, origin: "ext:" + strings.Join(names, "+")})
 	}
+	// statement forms and operator precedence: always present (expressions vary with the seed)
+	for k, names := range [][]string{{"range-forms", "assign-ops", "operator-precedence"}, {"operator-precedence", "operator-precedence", "operator-precedence"}} {
+		jobs = append(jobs, job{kind: "ext", src: compa.GenGoExtNamed(r.Fork(600000+k), names), origin: "ext:stmt-forms:" + strings.Join(names, "+")})
+	}
 	// name-resolution scenarios: the same set every run (constants vary with the seed), 6 per program
 	all := compa.GenNameScenarios(r.Fork(700000))
 	var scs []compa.NameScenario
